@@ -1168,6 +1168,11 @@ fn oracle_variant_sweep(seed: u64, rounds: u64) -> Oracle {
             for round in 0..rounds {
                 let mut rng = Rng::derive(seed, &format!("c15.variant-sweep/{}/{}", en, tag), round);
                 let Some(cases) = sweep_inputs(en, tag, &mut rng) else {
+                    // a string the syntactic scan found near the reader: is it a tag the compiled reader dispatches on?
+                    if probe::tag_is_real(en, tag) == Some(false) {
+                        or.count(&format!("syntactic-tag-not-a-tag-of-the-compiled-reader={}:{}", en, tag));
+                        break;
+                    }
                     or.fail(&format!("sweep:unswept-variant:{}:{}", en, tag), &format!("reader tag {:?} of {} is not covered by the sweep", tag, en), json!({"oracle": "c15.variant-sweep", "enum": en, "tag": tag}));
                     break;
                 };
